@@ -3,10 +3,13 @@ import FractopoModel.Basic.PyPrelude
 import FractopoModel.Basic.Geom
 import FractopoModel.Basic.Wire
 import FractopoModel.Props.C01
+import FractopoModel.Props.C02
 import FractopoModel.Props.C05
 import FractopoModel.Props.C07
 import FractopoModel.Props.C08
+import FractopoModel.Props.C09
 import FractopoModel.Props.C12
+import FractopoModel.Props.C13
 import FractopoModel.Props.C14
 import FractopoModel.Props.C15
 import FractopoModel.Props.C20
